@@ -44,6 +44,26 @@ class Gen:
         except Exception:  # noqa
             pass
         self.literals = lits[:10]
+        # lengths the module itself distinguishes lists by: the lengths of its constant lists of field names (positional layouts)
+        lens = set()
+
+        def rec(v, d=0):
+            if d > 3:
+                return
+            if isinstance(v, (list, tuple)) and v and all(isinstance(x, str) for x in v):
+                lens.add(len(v))
+            elif isinstance(v, (list, tuple)):
+                for x in v:
+                    rec(x, d + 1)
+            elif isinstance(v, dict):
+                for x in v.values():
+                    rec(x, d + 1)
+        try:
+            for v_ in self.le.module_env(mod).values():
+                rec(v_)
+        except Exception:  # noqa
+            pass
+        self.list_lengths = sorted(n_ for n_ in lens if 2 < n_ <= 24)[:6]
 
     def scalar(self, kind):
         self.n += 1
@@ -121,6 +141,17 @@ class Gen:
             if not ek:
                 return [], []
             variants = [[]] + [[v] for v in vs] + [[b, self.of_kinds(ek, depth + 1)[0]]]
+            if depth <= 1:
+                # positional layouts: lists of the lengths the module distinguishes, every position of the same kind - once per kind an element can have
+                for n_ in self.list_lengths:
+                    for proto in [None] + list(vs):
+                        full = []
+                        for i_ in range(n_):
+                            el = self.of_kinds(ek, depth + 1)[0] if proto is None else (AObj(proto.pytype, dict(proto.attrs), proto.name, proto.cls_key) if isinstance(proto, AObj) else proto)
+                            if isinstance(el, AObj) and "index" in el.attrs:
+                                el.attrs["index"] = i_
+                            full.append(el)
+                        variants.append(full)
             return [b], variants
         return self.scalar(kind), []
 
